@@ -15,4 +15,8 @@ SEM_ASSUMPTIONS = [
 ]
 SEM_LEMMAS = ['atom_ignores_types', 'dom_ignores_types', 'ev_frame', 'dom_frame', 'empty_test_sem',
               'ev_ignores_types', 'equiv_types', 'equiv_sym', 'equiv_trans', 'all_cong', 'any_cong', 'all_and',
-              'all_const', 'all_neg', 'conj_snoc', 'conj_append', 'conj_unit', 'conj_last']
+              'all_const', 'all_neg', 'conj_snoc', 'conj_append', 'conj_unit', 'conj_last',
+              'mentions_ignores_types', 'wfq_ignores_types', 'mentions_binary', 'mentions_unary', 'wfq_binary', 'wfq_unary',
+              'wt_binary_operands', 'wt_unary_operand', 'wt_quantifier_parts', 'bool_binary_operands', 'bool_unary_operand',
+              'de_morgan_equiv', 'mentions_empty_test']
+C09_LEMMAS = ['valid_conj_operands', 'valid_snoc', 'valid_append', 'valid_unit', 'valid_last', 'out_snoc', 'out_append', 'out_unit']
